@@ -538,7 +538,7 @@ func (c ContractError) Error() string { return "CONTRACT-ERROR: " + c.msg }
 
 var clauseKeywords = map[string]bool{"func": true, "requires": true, "ensures": true, "modifies": true, "loop": true,
 	"spec": true, "axiom": true, "pred": true, "ghost": true, "inline": true, "trusted": true, "let": true, "tags": true,
-	"noeffect": true, "pure": true, "mode": true, "update": true, "const": true, "alloc": true, "implements": true, "end": true, "any": true, "wrapok": true, "ghostinit": true, "cases": true, "typeinv": true, "safetytags": true}
+	"noeffect": true, "pure": true, "mode": true, "update": true, "const": true, "alloc": true, "implements": true, "end": true, "any": true, "wrapok": true, "ghostinit": true, "cases": true, "typeinv": true, "safetytags": true, "interior": true}
 
 // parseContractText parses the //@ lines of one file. pkg is the package path ("" for library specs).
 func (ss *SpecSet) parseContractText(file, pkg string, lines []string, lineNos []int) error {
@@ -746,6 +746,15 @@ func (ss *SpecSet) parseContractText(file, pkg string, lines []string, lineNos [
 				return fail(it, "wrapok outside func")
 			}
 			cur.WrapOK = append(cur.WrapOK, strings.Join(strings.Fields(rest), ""))
+		case "interior":
+			// interior TYPE...: every *TYPE points at an element of a []TYPE backing array
+			for _, tn := range strings.Fields(rest) {
+				pn := pkg
+				if i := strings.LastIndex(pn, "/"); i >= 0 {
+					pn = pn[i+1:]
+				}
+				interiorTypes[pn+"."+tn] = true
+			}
 		case "typeinv":
 			// typeinv TYPE: expr(this)   -- assumed for every non-nil *TYPE; its fields must be immutable
 			i := strings.Index(rest, ":")
